@@ -171,6 +171,8 @@ package txt
 //@ ensures same(result0, b.lines[result1:len(b.lines)-result2])
 //@ ensures len(result0) >= 1 && !blank(result0[0])
 //@ ensures forall(i, 0, result1, blank(b.lines[i]))
+//@ ensures forall(i, result1, len(b.lines) - result2, !blank(b.lines[i]))
+//@ ensures result2 == 0 || blank(b.lines[len(b.lines) - result2])
 //@ loop 1 invariant implies(!hasSeenSignificant, forall(i, 0, rangeindex+1, blank(b.lines[i])))
 //@ loop 1 invariant implies(hasSeenSignificant, first <= rangeindex && !blank(b.lines[first]) && forall(i, 0, first, blank(b.lines[i])))
 //@ loop 1 invariant 0 <= first
@@ -178,6 +180,7 @@ package txt
 //@ loop 1 invariant last == len(b.lines)
 //@ loop 1 invariant implies(hasSeenSignificant, first <= rangeindex)
 //@ loop 1 invariant implies(!hasSeenSignificant, first == 0)
+//@ loop 1 invariant implies(hasSeenSignificant, forall(i, first, rangeindex+1, !blank(b.lines[i])))
 
 // ---------------------------------------------------------------------------------------------
 // error.go: an error refers to an existing line of its block, and its position and length stay within
